@@ -452,7 +452,8 @@ PROPS['C14'] = dict(
          "start. Per round Coq receives the accepted votes and the implementation's definition diff. history: see C03 (its C14 predicate). "
          "Distinct by SHA-1 of the input.",
     explanation="Theorems C14_* prove on the model of plugin_outcome.go's definition step, for every hash function, f, current and target set and "
-                "every vote pattern of at most f faulty observers among >= f+1 correct ones: the 2000-channel cap always holds; only changes "
+                "every vote pattern of at most f faulty observers among >= f+1 correct ones: the 2000-channel cap always holds (also as an invariant of "
+                "whole histories of Plugin.outcome and of byte-level histories of Plugin.Outcome: C14_cap_history, C14_cap_on_the_wire); only changes "
                 "voted by correct nodes happen; one round performs exactly the first 5 removals and first 5 additions/replacements (pointwise); "
                 "the distance lists shrink by 5 each round, so after ceil(max(#remove,#add-or-replace)/5) rounds the set equals the target and "
                 "then stays equal (also end to end over histories of rounds on the wire: C14_llo_agreed_round / _stays_at_target / _convergence, from the "
